@@ -64,6 +64,22 @@ PROPS = {
             "known finding c06-left-recursion-through-implicit-skip is explained only when the references written in the grammar form no leftmost cycle",
         ],
     ),
+    "C07": dict(
+        runs=BOTH_CONFIGS("c07"),
+        rule=("abstract rule sets from G(guarded + stack ops, wide literal alphabet incl. quotes, backslashes, NUL, CR/LF, Latin-1, astral and "
+              "boundary code points, repetition counts up to 40, PEEK slices, with extras PUSH_LITERAL and tags) printed in spelling-fuzz mode: "
+              "random whitespace / CRLF / line / nested block comments at every token boundary the meta-grammar allows (inside {m , n}, "
+              "PEEK [ a .. b ], after ^, around ..), doc comments, leading |, redundant parentheses, only-necessary parentheses otherwise "
+              "(left-nested chains bare, right-nested parenthesised), each literal character raw or as \\n \\xHH \\u{H..}; read back with "
+              "parser::parse + consume_rules and compared with the rules printed. Non-trivial: >= 3 expression kinds and at least one spelling "
+              "feature (comment, escape, nested parens, CRLF); distinct = distinct texts."),
+        level_text=("Exploration: the real meta-parser and AST builder are run on generated concrete spellings of known abstract grammars; equality "
+                    "with the abstract grammar is the oracle, so precedence, associativity, unescaping, counts and slice indices are all decided by "
+                    "the round trip."),
+        level_note="Trusted: the printer (harness/vmon/src/print.rs) as the statement of pest's concrete syntax.",
+        technique="runtime monitoring: round-trip oracle (print with fuzzed legal spelling, read back, compare ASTs), both feature configurations",
+        assumptions=["grammars the validator rejects are counted, not judged (C06 owns acceptance)"],
+    ),
 }
 
 HOOK_COMMITS = [
